@@ -48,6 +48,7 @@ var typeVec = []uint64{2, 1, 5, 0, 4, 3}
 var modeVec = []uint64{0o644, 0o755, 0, math.MaxUint32, 0o644 | 0x1000, 0o444}
 var dataVec = [][]byte{[]byte("x"), {}, bytes.Repeat([]byte{0xAB}, 300), []byte("hello world"), {0}}
 var secVec = []int64{1, 0, -1, 1 << 31, math.MaxInt64, math.MinInt64}
+
 // nanoseconds are a fixed32 on the wire: the full unsigned range decodes (values from 2^31 up are not negative)
 var nanoVec = []uint32{999999999, math.MaxUint32, 0, 1 << 31, 1, 123456789}
 
